@@ -193,6 +193,11 @@ func (s *scen) step(g string, st Step, lc *local) {
 		case "Get":
 			s.call(g, callInfo{op: "Get"}, func() (string, bool, int) {
 				lc.tracer = w.tp.Tracer("c15-" + g)
+				if st.Via == "reentrant" {
+					_, sp := lc.tracer.Start(context.Background(), probeName)
+					lc.tnoop = !sp.IsRecording()
+					return "", lc.tnoop, 0
+				}
 				lc.tnoop = s.tracerNoop(lc.tracer)
 				return "", lc.tnoop, 0
 			})
@@ -324,6 +329,41 @@ type gInfo struct {
 	state string
 	isOp  bool
 	where string // innermost SDK frame
+	chain string // API calls and component callbacks on the stack, outermost first: "Shutdown>proc.Shutdown>UnregisterSpanProcessor"
+	held  bool   // parked at a gate of the director (the harness holds it: not a hang)
+}
+
+var (
+	provFrame   = regexp.MustCompile(`otel/sdk/(?:trace|log|metric)\.\(\*(?:TracerProvider|LoggerProvider|MeterProvider)\)\.([A-Z]\w*)`)
+	readerFrame = regexp.MustCompile(`otel/sdk/metric\.\(\*(?:PeriodicReader|ManualReader)\)\.([A-Z]\w*)`)
+	compFrame   = regexp.MustCompile(`^main\.\(\*(tProc|lProc|tExp|lExp|mExp|mManual|mPeriodic)\)\.([A-Z]\w*)`)
+)
+
+// frameLabel names the stack frames a re-entrancy chain is made of.
+func frameLabel(ln string) string {
+	if m := provFrame.FindStringSubmatch(ln); m != nil {
+		return m[1]
+	}
+	if m := readerFrame.FindStringSubmatch(ln); m != nil {
+		return "reader." + m[1]
+	}
+	if m := compFrame.FindStringSubmatch(ln); m != nil {
+		name := strings.TrimSuffix(m[2], "Spans")
+		switch m[1] {
+		case "tProc", "lProc":
+			return "proc." + name
+		case "mManual", "mPeriodic":
+			return "reader." + name
+		}
+		return "exp." + name
+	}
+	if strings.HasPrefix(ln, "main.obsCallback") {
+		return "callback"
+	}
+	if strings.HasPrefix(ln, "main.faultProducer.Produce") {
+		return "producer"
+	}
+	return ""
 }
 
 func parseDump(dump string) []gInfo {
@@ -338,6 +378,7 @@ func parseDump(dump string) []gInfo {
 			continue
 		}
 		g := gInfo{id: m[1], state: m[2]}
+		var chain []string
 		for _, ln := range lines[1:] {
 			if strings.HasPrefix(ln, "\t") {
 				continue
@@ -345,12 +386,24 @@ func parseDump(dump string) []gInfo {
 			if strings.Contains(ln, "main.(*scen).doOp") {
 				g.isOp = true
 			}
+			if strings.HasPrefix(ln, "main.(*gate).wait") {
+				g.held = true
+			}
+			if l := frameLabel(ln); l != "" && (len(chain) == 0 || chain[len(chain)-1] != l) {
+				chain = append(chain, l)
+			}
 			if g.where == "" && strings.HasPrefix(ln, "go.opentelemetry.io/otel/sdk/") {
 				g.where = ln
 				if i := strings.LastIndex(g.where, "("); i > 0 {
 					g.where = g.where[:i]
 				}
 			}
+		}
+		for i := len(chain) - 1; i >= 0; i-- { // the dump lists the innermost frame first
+			if g.chain != "" {
+				g.chain += ">"
+			}
+			g.chain += chain[i]
 		}
 		out = append(out, g)
 	}
@@ -401,7 +454,9 @@ func (s *scen) waitOrHang(done <-chan struct{}) (hung bool, where string, dump s
 			}
 			if g.isOp {
 				ops = append(ops, g.id+"@"+g.where)
-				if !parkedStates[g.state] || g.where == "" {
+				// a call the director holds at one of its gates (inside a component callback) is not parked by
+				// the SDK, and what waits for it is not hung
+				if !parkedStates[g.state] || g.where == "" || g.held {
 					allParked = false
 				}
 			} else if g.state == "running" || g.state == "runnable" || g.state == "syscall" {
@@ -417,19 +472,25 @@ func (s *scen) waitOrHang(done <-chan struct{}) (hung bool, where string, dump s
 				stableSince = time.Now()
 			}
 			if time.Since(stableSince) >= confirm {
-				ws := map[string]bool{}
+				ws, cs := map[string]bool{}, map[string]bool{}
 				for _, g := range gs {
 					if g.isOp && !leakedOps[g.id] {
 						ws[g.where] = true
+						cs[g.chain] = true
 						leakedOps[g.id] = true
 					}
 				}
-				var wl []string
+				var wl, cl []string
 				for w := range ws {
 					wl = append(wl, w)
 				}
+				for c := range cs {
+					cl = append(cl, c)
+				}
 				sort.Strings(wl)
-				return true, strings.Join(wl, ";"), d
+				sort.Strings(cl)
+				// "<call chains, outermost first> @ <innermost SDK frames>"
+				return true, strings.Join(cl, " | ") + " @ " + strings.Join(wl, ";"), d
 			}
 		} else {
 			stableSince = time.Time{}
